@@ -30,8 +30,8 @@ ASSUMPTIONS = [
     "a cell centre closer than 1e-9 coarse cells to a coarse grid line may be "
     "counted in either adjacent cell (or outside, on the outer boundary)",
     "when no catchment cell falls inside the coarse grid an exception is accepted",
-    "Voronoi distances are compared exactly (k/2-lattice points, half-integer "
-    "centres); ties go to the lowest point index",
+    "Voronoi distances are compared exactly (k/2- and k/8-lattice points, "
+    "half-integer centres); ties go to the lowest point index",
 ]
 OBLIGATIONS = {"intersect": 100, "intersect:partial-left": 5,
                "intersect:partial-bottom": 5, "intersect:partial-right": 5,
@@ -39,7 +39,8 @@ OBLIGATIONS = {"intersect": 100, "intersect:partial-left": 5,
                "intersect:on-edge": 5, "intersect:filled": 20,
                "intersect:delineated": 10, "voronoi": 100, "voronoi:tie": 20,
                "voronoi:more-cells-than-points": 30,
-               "voronoi:more-points-than-cells": 5}
+               "voronoi:more-points-than-cells": 5,
+               "voronoi:clustered-points": 10}
 
 
 def mods():
@@ -220,6 +221,14 @@ def run_voronoi_case(ctx, case):
         cnt[d2.index(m)] += 1
     if tie:
         ctx.tag("voronoi:tie")
+    close = 0
+    for c in cells:
+        x, y = gf.centre(c)
+        if sum(1 for p in pts if (x - Fraction(float(p[0]))) ** 2 +
+               (y - Fraction(float(p[1]))) ** 2 < Fraction(1, 4) * gf.fc ** 2) >= 2:
+            close += 1
+    if close:
+        ctx.tag("voronoi:clustered-points")
     ref = cnt / len(cells)
     ctx.check("voronoi.weights", w.shape == ref.shape and
               bool(np.all(np.abs(w - ref) <= 1e-12)), "voronoi|weights", case,
@@ -309,7 +318,16 @@ def run(ctx):
         # Voronoi on a unit-cell grid with half-integer centres
         vf = {"nrows": nr, "ncols": nc, "csz": 1.0, "xll": 0.0, "yll": 0.0}
         npts = int(rng.integers(1, 7))
-        if it % 4 == 0:
+        if it % 4 == 3 and cells:
+            # points clustered (k/8 lattice) around the centre of one catchment
+            # cell: several points closer than half a cell to the same centre
+            gv = Geom(nr, nc, 0.0, 0.0, 1.0)
+            cx, cy = gv.centre(int(cells[int(rng.integers(0, len(cells)))]))
+            pts = np.array([float(cx), float(cy)]) + \
+                rng.integers(-3, 4, size=(npts, 2)) / 8.0
+            if npts >= 2 and rng.random() < 0.7:
+                pts[-1] = [float(cx), float(cy)]
+        elif it % 4 == 0:
             pts = rng.integers(-2, 2 * max(nr, nc) + 4, size=(npts, 2)) / 2.0
         elif it % 4 == 1:
             pts = rng.integers(0, 2 * max(nr, nc), size=(npts, 2)) / 2.0 + 0.5
